@@ -9,9 +9,12 @@ CLAIMED = {
  "C03": ("exploration", "4.C03", "Accounting identities evaluated at every scheduling point of concurrent simulated runs (nobody holds the cache mutex there) and tied to the real directory at quiescence."),
  "C04": ("fault_enumeration", "4.C04", "Directory = index bijection, sizes, completeness (independent cas.v2 reader) at quiescence after runs whose uploads fail at drawn stages (corrupt, truncated, aborted mid-stream, commit refused)."),
  "C05": ("exploration", "4.C05", "Sequential histories of puts, overwrites and lookups on small caches judged against a specification model of recency (groups with unspecified internal order): no eviction without pressure, evictions downward-closed in recency, no more than the minimal oldest prefix, present after accepted put, oversize rejected without eviction, replaced version kept until commit."),
+ "C06": ("exploration", "4.C06", "Generated ActionResults (0-25 output files, nested Trees, stdout/stderr digests, empty-blob digests) whose referenced blobs are independently present, absent or stored with another size; hit <=> all present on gRPC GetActionResult and HTTP GET/HEAD, absence => NotFound/404, a hit refreshes the recency of every referenced blob."),
  "C07": ("exploration", "4.C07", "2-5 simulated clients on shared keys, every interleaving decision at lock boundaries and file-system steps taken by the seeded scheduler; reads judged for wholeness, per-key histories checked with porcupine against a weak-register model, accounting/directory invariants at every step and at quiescence, deadlock = nothing runnable with a request open."),
  "C08": ("fault_enumeration", "4.C08", "For generated plans (pre-population + victim uploads/overwrites) the victim phase is run once to count its N scheduling steps and then once per step with the process killed there (all goroutines of the instance parked for ever), restart on the directory as is (same/other storage mode, same/smaller max_size), every key read on every path with size known and unknown, interrupted uploads repeated. Kill = process kill: completed writes are visible; no power-loss model."),
  "C09": ("exploration", "4.C09", "Directories produced by an independent writer (current/legacy flat/legacy two-level layouts, .v1 and cas.v2 mixed, duplicates, lost+found, .DS_Store) with simulator-owned access times; start-up with max_size above/at/below the total or below the largest file; survivors judged against an oldest-first replay model, later evictions against recency, every survivor read back byte-exactly."),
+ "C11": ("exploration", "4.C11", "Valid ActionResults and one-invalid-field variants (sampled kinds, not exhaustive) uploaded via gRPC and HTTP (proto/JSON/zstd); rejected uploads must leave the key unchanged, hits are compared with the upload modulo the documented changes (worker, inlining, de-inlined bytes in the CAS), JSON and proto views must agree, whatever is stored must parse and validate."),
+ "C12": ("fault_enumeration", "4.C12", "Front end with the real httpproxy over a simulated transport/object store (b1) or a harness cache.Proxy (b0); every operation may carry one backend fault (error, 404 with/without body, 5xx, disconnect or clean short stream at header/table/chunk byte offsets, missing/wrong size metadata, oversize, backend down); judged: read-through, write-through (decoded by the independent cas.v2 reader), no wrong hit, no poisoned local entry, no leaked response body/fd/goroutine/reservation. The real grpcproxy is not yet driven (stated in DESIGN.md)."),
  "C18": ("exploration", "4.C18", "Uploads of limit-1/limit/limit+1/far-above sizes through every write path under per-run random max_blob_size; refusals must be client errors that store nothing, the limit itself is accepted."),
 }
 
